@@ -4,6 +4,7 @@ import Gv.Proofs.StockholmRT
 import Gv.Model.Fmt.Auto
 import Gv.Proofs.NexusRT
 import Gv.Proofs.PhylipRT3
+import Gv.Proofs.ClustalRT4
 /-!
 C02 — every alignment format round-trips losslessly through writer and parser.
 
@@ -752,5 +753,97 @@ example : Phylip.parse false ⟨true, 0, 2⟩ (Phylip.write true false false
   decide
 
 end PhylipRT
+
+/-! ## Clustal -/
+
+section ClustalRT
+open Gv.Proofs.ClustalRT
+open Gv.Spec.Fmt (reprClustal upperName)
+
+private theorem cl_residue_byte : ∀ b : Byte,
+    ((isNt b || isSpecial b) = true → Clustal.upper b ≠ 76) ∧ ((isAa b || isSpecial b) = true → Clustal.upper b ≠ 85) := by
+  decide
+
+private theorem cl_upper : Clustal.upper = Spec.Fmt.upper := rfl
+
+/-- what `reprClustal` gives row by row -/
+private theorem cl_repr_rows (rows : List XRow) (h : reprClustal rows = true) :
+    rows ≠ [] ∧ ∃ L, 1 ≤ L ∧ (∀ r ∈ rows, RowOk L W r) ∧ distinct (rows.map (·.1)) = true := by
+  simp only [reprClustal, reprBase, Bool.and_eq_true] at h
+  obtain ⟨⟨⟨⟨hrect, hres⟩, hdist⟩, hnames⟩, hcl⟩ := h
+  cases rows with
+  | nil => simp [rectangular] at hrect
+  | cons r0 rs =>
+    simp only [rectangular, Bool.and_eq_true, decide_eq_true_eq, List.all_eq_true, beq_iff_eq] at hrect
+    have hlen : ∀ r ∈ r0 :: rs, r.2.length = r0.2.length := by
+      intro r hr
+      cases hr with
+      | head => rfl
+      | tail _ hr => exact hrect.2 r hr
+    refine ⟨by simp, r0.2.length, hrect.1, ?_, hdist⟩
+    intro r hr
+    have hn := (List.all_eq_true.mp hnames) r hr
+    simp only [Bool.and_eq_true, Bool.not_eq_true', List.all_eq_true] at hn
+    have hc := (List.all_eq_true.mp hcl) r hr
+    simp only [Bool.and_eq_true, bne_iff_ne, ne_eq] at hc
+    have hne : r.1 ≠ [] := by
+      intro e; rw [e] at hn; simp at hn
+    have hrun : Gv.Proofs.PhylipRT.Run r.1 := ⟨hne, fun b hb => ph_name_byte b (hn.2 b hb)⟩
+    have hname : NameOk r.1 := by
+      refine ⟨hrun, ?_⟩
+      unfold classify
+      by_cases hi : (Phylip.parseInt64 r.1).isSome = true
+      · right; simp [hi]
+      · left
+        have h1 : ¬ (r.1.map Clustal.upper = [67, 76, 85, 83, 84, 65, 76]) := by rw [cl_upper]; exact hc.1
+        have h2 : ¬ (r.1.map Clustal.upper = [67, 76, 85, 83, 84, 65, 76, 87]) := by rw [cl_upper]; exact hc.2
+        simp [hi, h1, h2]
+    simp only [residuesOk, Bool.or_eq_true, List.all_eq_true] at hres
+    refine rowOk_of _ r hname (hlen r hr) ?_ ?_
+    · intro b hb
+      apply ph_residue_byte
+      cases hres with
+      | inl h1 => left; simpa using h1 r hr b hb
+      | inr h1 => right; simpa using h1 r hr b hb
+    · cases hres with
+      | inl h1 => left; exact fun b hb => (cl_residue_byte b).1 (by simpa using h1 r hr b hb)
+      | inr h1 => right; exact fun b hb => (cl_residue_byte b).2 (by simpa using h1 r hr b hb)
+
+/-- **Clustal round trip**: for every representable alignment (any number of rows, any length: any number
+of blocks of `CLUSTAL_LINE` = 50 residues with their cumulative counts and conservation lines), whatever
+alphabet the writer is given for the conservation line, every duplicate-name policy, with or without the
+row-index guard (`c`), auto-detected alphabet: parsing the writer's output gives back the same names in the
+same order, the same residues, the same length and the detected alphabet.  The header line carries the
+build's version text, which must not contain a line break (`\n`, `\r`) or NUL — with one the header line
+would end early; the cumulative counts must fit Go's `int64` (a longer Go string does not exist). -/
+theorem roundtrip_clustal (c : Bool) (version : Seq) (hv : ∀ b ∈ version, b ≠ 10 ∧ b ≠ 13 ∧ b ≠ 0)
+    (alphabet : Nat) (o : POpts) (ho : normAlphabet o.alphabet = 2) (rows : List XRow)
+    (h : reprClustal rows = true) (hsize : ∀ r ∈ rows, r.2.length ≤ 9223372036854775807) :
+    ∃ L : Nat, 1 ≤ L ∧ (∀ r ∈ rows, r.2.length = L) ∧
+      Clustal.parse c o (Clustal.write version alphabet rows) =
+        .ok ⟨autoAlphabet (rows.map (·.2)), L, rows⟩ := by
+  obtain ⟨hne, L, hL1, hok, hdist⟩ := cl_repr_rows rows h
+  have hlen : ∀ r ∈ rows, r.2.length = L := fun r hr => (hok r hr).len
+  have hLmax : L ≤ 9223372036854775807 := by
+    cases rows with
+    | nil => exact absurd rfl hne
+    | cons r rs => rw [← hlen r (by simp)]; exact hsize r (by simp)
+  exact ⟨L, hL1, hlen, parse_written c version hv alphabet o ho L hL1 hLmax rows hne hok hdist⟩
+
+/-- the theorem at the version text of the harness build (`version.Version` = "Unset") -/
+theorem roundtrip_clustal_harness (c : Bool) (alphabet : Nat) (rows : List XRow) (h : reprClustal rows = true)
+    (hsize : ∀ r ∈ rows, r.2.length ≤ 9223372036854775807) :
+    ∃ L : Nat, Clustal.parse c {} (Clustal.write [85, 110, 115, 101, 116] alphabet rows) =
+      .ok ⟨autoAlphabet (rows.map (·.2)), L, rows⟩ := by
+  obtain ⟨L, _, _, hp⟩ := roundtrip_clustal c [85, 110, 115, 101, 116] (by decide) alphabet {} (by decide) rows h hsize
+  exact ⟨L, hp⟩
+
+/-- non-vacuity: a representable protein alignment with a gap and a numeric name -/
+example : reprClustal [([49, 50], [65, 82, 45, 76]), ([115, 50], [97, 69, 68, 42])] = true := by decide
+
+/-- the version hypothesis is needed: with a line break in the version text the writer's output is rejected -/
+example : Clustal.parse true {} (Clustal.write [10] 0 [([97], [65, 76])]) = .error := by decide
+
+end ClustalRT
 
 end Gv.Props.C02
